@@ -18,7 +18,7 @@ RULE = (
     "generated item list: every single item of the product mnemonic(7) x unit(7) x value(13) x description(6) allowed "
     "by the statement's conformance clause, every ordered pair over a 36-kind palette (so each kind is in turn the "
     "widest of its section and next to empty-unit/empty-value neighbours), thorough: every ordered triple over a "
-    "12-kind palette; ~Other variants; written as 1.2 and 2.0, read back with mnemonic_case preserve/upper/lower; "
+    "12-kind palette; ~Other variants; written as 1.2 and 2.0, read back with mnemonic_case preserve/upper/lower, and the re-read object written and read once more (same version and case); "
     "non-trivial = the list holds an item whose unit, value or description is non-empty"
 )
 ASSUMPTIONS = [
@@ -216,7 +216,31 @@ def check_point(pt):
                 break
     if after["Other"] != before["Other"]:
         vio.append(V("other-text", before["Other"], after["Other"], text))
-    return vio[:3], nontriv, "ok", {}, 2
+    if vio:
+        return vio[:3], nontriv, "ok", {}, 2
+    # second stage: the object that came out of read() is itself a LASFile with conformant fields -
+    # writing and reading it again (same version, same case) must return the same items once more
+    try:
+        s2 = io.StringIO()
+        back.write(s2, version=pt["ver"])
+        text2 = s2.getvalue()
+        back2 = lasio.read(text2, mnemonic_case=pt["case"])
+    except Exception as e:
+        return [V("second-cycle-raises", "write/read of the re-read object succeed", "%s: %s" % (type(e).__name__, str(e)[:160]), text)], nontriv, "ok", {}, 4
+    again = snapshot(back2)
+    for name in SECTIONS:
+        a = [(m, u, canon.value_tag(v, "numeric"), d) for (m, u, v, d) in after[name]]
+        b = [(m, u, canon.value_tag(v, "numeric"), d) for (m, u, v, d) in again[name]]
+        if any(m.strip() == "" and any("." in str(f) for f in (u, v, d)) for (m, u, v, d) in after[name]):
+            continue  # the statement's proviso: a blank mnemonic only on lines with no further period (1e3 came back as 1000.0)
+        if name == "Well":
+            a = [x for x in a if x[0].upper() not in ("STRT", "STOP", "STEP")]
+            b = [x for x in b if x[0].upper() not in ("STRT", "STOP", "STEP")]
+        if a != b:
+            vio.append(V("second-cycle:" + name, [list(map(str, x)) for x in a][:6], [list(map(str, x)) for x in b][:6], text2))
+    if again["Other"] != after["Other"]:
+        vio.append(V("second-cycle:other-text", after["Other"], again["Other"], text2))
+    return vio[:3], nontriv, "ok", {}, 4
 
 
 def classify(pt, clause, expected, observed):
